@@ -15,7 +15,11 @@ static int in_cs, sections, counter;
 
 static void section()
 {
+#ifdef NO_TIMED
+    unsigned kind = verif_nondet_range(0, 1);
+#else
     unsigned kind = verif_nondet_range(0, 2);
+#endif
     bool got = false;
     if (kind == 0)
     {
